@@ -70,7 +70,11 @@ def parse_out(s):
     return wire.parse_all(s[3:])[0]
 
 
-def oracle(line, impl, model):
+def spec_lines(lines):
+    return ["mp spec" + l[len("mp apply"):] if l.startswith("mp apply") else l for l in lines]
+
+
+def oracle(line, impl, model, ref=None):
     """property judged on the real output: RFC 7386 result (= Lean Spec, proved equal to the Model's
     result as a JSON value) / the diff law evaluated directly"""
     op, kind, a, b = parse_line(line)
@@ -78,7 +82,7 @@ def oracle(line, impl, model):
     if got is KeyError:
         return "apply/from_diff did not return a value: " + impl
     if op == "apply":
-        want = parse_out(model)
+        want = parse_out(ref if ref is not None else model)
         if wire.canon(got) != wire.canon(want):
             return "result differs from RFC 7386 MergePatch(target, patch) as a JSON value"
     elif op == "difflaw":
@@ -123,10 +127,11 @@ def run(ctx):
         check_rfc_examples(ctx)
     except Exception as e:  # driver missing
         ctx.broken.append(("driver", "jvdriver", str(e)))
-    ctx.correspond("rfc-examples", "mp", corpus_lines(), oracle, nontrivial)
+    ctx.correspond("rfc-examples", "mp", corpus_lines(), oracle, nontrivial, ref_lines=spec_lines(corpus_lines()))
     n = 1500 if ctx.tier == "quick" else 40000
     pairs = gen_pairs(rng, n, small=True) + gen_pairs(rng, n, small=False)
-    ctx.correspond("apply-random", "mp", lines_for(pairs, "apply"), oracle, nontrivial)
+    la = lines_for(pairs, "apply")
+    ctx.correspond("apply-random", "mp", la, oracle, nontrivial, ref_lines=spec_lines(la))
     ctx.correspond("diff-random", "mp", lines_for(pairs, "diff"), oracle, nontrivial)
     ctx.correspond("difflaw-random", "mp", lines_for(pairs, "difflaw"), oracle, nontrivial)
     if ctx.tier == "thorough":
@@ -136,7 +141,8 @@ def run(ctx):
         ex = list(itertools.product(vals, vals))
         rng.shuffle(vals2)
         ex += list(itertools.product(vals2[:400], vals2[:400]))
-        ctx.correspond("apply-exhaustive-small", "mp", lines_for(ex, "apply"), oracle, nontrivial)
+        le = lines_for(ex, "apply")
+        ctx.correspond("apply-exhaustive-small", "mp", le, oracle, nontrivial, ref_lines=spec_lines(le))
         ctx.correspond("difflaw-exhaustive-small", "mp", lines_for(ex, "difflaw"), oracle, nontrivial)
         ctx.cov["exhaustive_note"] = "all pairs of values of depth <= 1 over keys {a,b}, leaves {null,1,'x'}, width <= 2: %d pairs" % (len(vals) ** 2)
 
